@@ -149,6 +149,12 @@ def run(M, rep, tier, only=None):
     if tcf is not None:
         ictx.cfg.opaque[tcf.qual] = ("py", "tuple")
     RD, WR = io_names(ctx)
+    # the view's two hooks are analysed up to the call into the underlying array (what the array then does is C01/C15's)
+    for nm_ in (RD, WR):
+        am = ctx.member("DataArray", nm_) or ctx.member("DataSet", nm_)
+        for q_ in {x.qual for x in (ctx.member("DataArray", nm_), ctx.member("DataSet", nm_)) if x is not None}:
+            cctx.cfg.opaque[q_] = ("py", "ndarray")
+            ictx.cfg.opaque[q_] = ("py", "ndarray")
     for nm in (RD, WR):
         f = ctx.member("DataView", nm)
         key = "DataView." + nm
@@ -172,7 +178,7 @@ def run(M, rep, tier, only=None):
             valid = [v for a, v in p.decisions if a[0] == "truthy" and a[1] == ("attr", ("self",), "_valid")]
             if valid and valid[0] is False:
                 ninv += 1
-                if any(e.kind in ("layer", "raw") for e in p.events):
+                if any(e.kind in ("layer", "raw") or (e.kind == "ocall" and e.op.split(".")[-1] in (RD, WR)) for e in p.events):
                     bad = (p, "an invalid view touches storage")
                 if nm == WR and p.normal:
                     bad = (p, "writing through an invalid view is not refused")
@@ -450,6 +456,12 @@ def run(M, rep, tier, only=None):
 
     # ---------------------------------------------------------------- R6
     reshape_rule(M, rep, R6, ctx)
+
+    # ---------------------------------------------------------------- R8 (shared with C01.R4)
+    R8 = rep.rule("C06.R8", "an array hands the index it was given to the storage access unchanged (out-of-range integers stay refusable)", floor=3,
+                  technique="argument provenance on all abstract paths (shared with C01.R4)")
+    from . import c01
+    c01.passthrough_rule(M, rep, R8)
 
     # ---------------------------------------------------------------- R7
     n = stateless.run(M, rep, R7, only_classes={"DataView", "DataSet"})
